@@ -22,7 +22,7 @@ os.chdir(ROOT)
 from pyvc import run as pyrun          # noqa: E402
 from rac import build as racbuild      # noqa: E402
 
-EVID = os.path.join(ROOT, "evidence")
+EVID = os.environ.get("VERIF_EVIDENCE_DIR") or os.path.join(ROOT, "evidence")
 REPLAYS = os.path.join(EVID, "replays")
 FUNCTION_LEVEL = ("post", "raises", "frame", "pre@call")
 
@@ -164,7 +164,9 @@ def main(argv=None):
         for f in rac["failures"]:
             hit = next((k for k in kf if k["key"] in f["key"]), None)
             if hit:
-                lines.append(f"KNOWN-FINDING: property={prop} {hit['what']}")
+                ln = f"KNOWN-FINDING: property={prop} {hit['what']}"
+                if ln not in lines:
+                    lines.append(ln)
                 continue
             linked = [o.name for (r, o, v) in refuted + undecided
                       if f.get("function") and r.contract.qualname.endswith(f["function"])]
@@ -247,9 +249,11 @@ def main(argv=None):
             print("CHECKER-BROKEN:", b)
         return 3
     if violations:
-        for path, what, suffix in violations:
-            print(f"# {what}")
+        for path, what, suffix in violations[:3]:
+            print(f"# {what[:400]}")
             print(f"VIOLATION property={prop} replay={path}{suffix}")
+        if len(violations) > 3:
+            print(f"# ... and {len(violations) - 3} more failing inputs (replay files next to the ones above)")
         return 1
     print(f"[{prop}] held ({level}) in {time.time() - t0:.1f}s")
     return 0
